@@ -49,6 +49,12 @@ def _solve(vc, timeout_ms):
     else:
         vc.status = 'unknown'
         vc.reason = s.reason_unknown()
+        if os.environ.get('PV_DUMP_UNKNOWN'):
+            d = os.environ['PV_DUMP_UNKNOWN']
+            os.makedirs(d, exist_ok=True)
+            import re as _re
+            with open(os.path.join(d, _re.sub(r'[^A-Za-z0-9_.-]+', '_', vc.name) + f'-{id(vc) % 10000}.smt2'), 'w') as f:
+                f.write(s.sexpr() + '\n(check-sat)\n')
         # ground refuter: own pattern instantiation; unsat is a proof, sat a candidate for native replay only
         try:
             from . import ground
@@ -102,7 +108,7 @@ def decode(m, t, st, ex, spec=None, depth=0):
         return {'$dt': [d.year, d.month, d.day, sec // 3600, sec % 3600 // 60, sec % 60, 0]}
     if name in ('List', 'Tuple'):
         n = _val(m, ln(v)).as_long()
-        n = max(0, min(n, 6 if depth < 2 else 3))
+        n = max(0, min(n, 400 if depth == 0 else 48 if depth == 1 else 6))
         inner = spec[5:] if spec and spec.startswith('list:') else None
         items = [decode(m, at(v, i), st, ex, inner, depth + 1) if depth < 4 else None for i in range(n)]
         return items if name == 'List' else {'$t': items}
